@@ -156,7 +156,13 @@ func scenarioServer(sp Spec, oc *Outcome) {
 			sndbuf = 4096
 		}
 	}
-	fx, err := startServer(rec, srvOpts{writeTimeout: wt, withStream: true, sndbuf: sndbuf})
+	mcast := false
+	for _, p := range sp.Peers {
+		if p.Proto == "mcast" || p.Mode == "mcast2" {
+			mcast = true
+		}
+	}
+	fx, err := startServer(rec, srvOpts{writeTimeout: wt, withStream: true, sndbuf: sndbuf, multicast: mcast, seed: sp.Seed})
 	if err != nil {
 		oc.SetupErr = err.Error()
 		return
@@ -194,7 +200,7 @@ func scenarioServer(sp Spec, oc *Outcome) {
 	var wgPeers sync.WaitGroup
 	for i, ps := range sp.Peers {
 		if ps.Kind == "raw" {
-			r := &rawPeer{spec: ps, addr: fx.addr}
+			r := &rawPeer{spec: ps, addr: fx.addr, co: co, delay: time.Duration(rng.IntN(300)) * time.Microsecond}
 			raws = append(raws, r)
 			continue
 		}
@@ -290,6 +296,28 @@ func scenarioServer(sp Spec, oc *Outcome) {
 			}
 		}
 		oc.CloseMs = float64(time.Since(t0).Microseconds()) / 1000
+		if sp.Target == "stream" {
+			// the multicast writers (listeners + write queue) the stream created are gone; the server's
+			// own two unicast UDP listeners stay
+			deadline := time.Now().Add(300 * time.Millisecond)
+			for {
+				n := 0
+				var left []Goroutine
+				for _, g := range libGoroutines(baseG)["server"] {
+					if strings.Contains(g.CreatedBy, "serverUDPListener") || strings.Contains(g.CreatedBy, "serverMulticastWriter") {
+						n++
+						left = append(left, g)
+					}
+				}
+				if n <= 2 || time.Now().After(deadline) {
+					if n > 2 {
+						oc.StreamLeft = stacks(left)
+					}
+					break
+				}
+				time.Sleep(2 * time.Millisecond)
+			}
+		}
 		// every reader session (the closed session) must deliver its close notification within the bound,
 		// while the server keeps running and the peers keep doing what they were doing
 		deadline := time.Now().Add(time.Duration(oc.BoundMs) * time.Millisecond)
